@@ -18,6 +18,7 @@ import (
 	"strconv"
 	"strings"
 	"sync"
+	"time"
 
 	"github.com/benhoyt/goawk/interp"
 	"github.com/benhoyt/goawk/parser"
@@ -30,6 +31,7 @@ type RunSum struct {
 	Vr     string `json:"vr"`
 	Kind   string `json:"kind"`
 	Cfg    string `json:"cfg"`
+	Tag    int    `json:"tag"` // position of the run in the history: makes its standard input its own
 	Status int    `json:"status"`
 	Err    string `json:"err"`
 }
@@ -53,7 +55,67 @@ const (
 	infC1     = "x:y\n5:6\n"
 )
 
-var inputs = map[string]string{"c0": "x y\n5 6\n", "c1": infC1, "c2": "x,y\n5,6\n"}
+// stdinOf is the standard input handed to a run (StdinOf in spec/Reuse.tla): two
+// records and one that names the run.
+func stdinOf(cfg string, tag int) string {
+	switch cfg {
+	case "c0":
+		return fmt.Sprintf("x y\n5 6\nt%d 9\n", tag)
+	case "c1":
+		return fmt.Sprintf("p:q\n7:8\nt%d:9\n", tag)
+	case "c2":
+		return fmt.Sprintf("x,y\n5,6\nt%d,9\n", tag)
+	case "c3":
+		return fmt.Sprintf("x y\n7 8\nt%d 9\n", tag)
+	case "c4":
+		return fmt.Sprintf("x y\n3 4\nt%d 9\n", tag)
+	}
+	panic("c14: unknown configuration " + cfg)
+}
+
+// apiOf: how the run is called (ApiOf in spec/Reuse.tla).  "exec": Execute;
+// "ctxbg": ExecuteContext(context.Background()); "ctx": ExecuteContext with a
+// context that is cancelled as soon as the call has returned (the idiom
+// `ctx, cancel := context.WithTimeout(..); defer cancel()`); "ctxdl":
+// ExecuteContext with a context whose deadline passes as soon as the call has
+// returned.  Kinds that cancel their own call get a cancellable context.
+func apiOf(kind, cfg string) string {
+	api := map[string]string{"c0": "exec", "c1": "ctx", "c2": "exec", "c3": "ctxdl", "c4": "ctxbg"}[cfg]
+	if (kind == "cancel" || kind == "exit_endcancel") && (api == "exec" || api == "ctxbg") {
+		return "ctx"
+	}
+	return api
+}
+
+// deadlineCtx is a context with a deadline that passes when the harness says
+// so: Done is closed and Err becomes DeadlineExceeded at expire().
+type deadlineCtx struct {
+	done chan struct{}
+	once sync.Once
+	mu   sync.Mutex
+	err  error
+	at   time.Time
+}
+
+func newDeadlineCtx() *deadlineCtx {
+	return &deadlineCtx{done: make(chan struct{}), at: time.Now().Add(time.Hour)}
+}
+func (c *deadlineCtx) Deadline() (time.Time, bool) { return c.at, true }
+func (c *deadlineCtx) Done() <-chan struct{}       { return c.done }
+func (c *deadlineCtx) Value(any) any               { return nil }
+func (c *deadlineCtx) Err() error {
+	c.mu.Lock()
+	defer c.mu.Unlock()
+	return c.err
+}
+func (c *deadlineCtx) expire() {
+	c.once.Do(func() {
+		c.mu.Lock()
+		c.err = context.DeadlineExceeded
+		c.mu.Unlock()
+		close(c.done)
+	})
+}
 
 type workDir struct{ dir, wf, rf, inf string }
 
@@ -99,7 +161,7 @@ func must(err error) {
 type session struct {
 	in     *interp.Interpreter
 	funcs  map[string]any
-	cancel context.CancelFunc // cancel function of the run in progress (kind "cancel")
+	cancel func() // makes the context of the run in progress done (kinds "cancel", "exit_endcancel")
 }
 
 func newSession() (*session, error) {
@@ -120,7 +182,7 @@ func newSession() (*session, error) {
 type Result struct {
 	Out    []byte
 	Status int
-	Err    string // "none", "error", "canceled"
+	Err    string // "none", "error", "canceled", "deadline"
 	Text   string // error text, for reports only
 	Panic  any
 }
@@ -131,29 +193,28 @@ func errClass(err error) string {
 		return "none"
 	case errors.Is(err, context.Canceled):
 		return "canceled"
+	case errors.Is(err, context.DeadlineExceeded):
+		return "deadline"
 	}
 	return "error"
 }
 
-// run executes one run (kind, cfg) on the session's interpreter.
-func (s *session) run(kind, cfg string, w *workDir) (res Result) {
+// run executes one run (kind, cfg, tag) on the session's interpreter.
+func (s *session) run(kind, cfg string, tag int, w *workDir) (res Result) {
 	var out, errb bytes.Buffer
 	c := &interp.Config{
-		Stdin:   strings.NewReader(inputs[cfg]),
+		Stdin:   strings.NewReader(stdinOf(cfg, tag)),
 		Output:  &out,
 		Error:   &errb,
 		Environ: []string{},
 		Funcs:   s.funcs,
 		Vars:    []string{"mode", kind, "wf", w.wf, "rf", w.rf},
 	}
-	useCtx := kind == "cancel"
 	switch cfg {
 	case "c1":
 		c.Vars = append(c.Vars, "FS", ":")
 		c.OutputMode = interp.TSVMode
 		c.Args = []string{w.inf}
-		c.Stdin = strings.NewReader("")
-		useCtx = true
 	case "c2":
 		c.InputMode = interp.CSVMode
 		c.CSVInput = interp.CSVInputConfig{Header: true}
@@ -166,19 +227,24 @@ func (s *session) run(kind, cfg string, w *workDir) (res Result) {
 	}()
 	var status int
 	var err error
-	if useCtx {
-		ctx, cancel := context.WithCancel(context.Background())
-		defer cancel()
-		if kind == "cancel" {
-			s.cancel = cancel
-		} else {
-			s.cancel = nil
-		}
-		status, err = s.in.ExecuteContext(ctx, c)
-		s.cancel = nil
-	} else {
+	s.cancel = nil
+	switch apiOf(kind, cfg) {
+	case "exec":
 		status, err = s.in.Execute(c)
+	case "ctxbg":
+		status, err = s.in.ExecuteContext(context.Background(), c)
+	case "ctx":
+		ctx, cancel := context.WithTimeout(context.Background(), time.Hour)
+		defer cancel() // the context is done from the moment the call has returned
+		s.cancel = cancel
+		status, err = s.in.ExecuteContext(ctx, c)
+	case "ctxdl":
+		ctx := newDeadlineCtx()
+		defer ctx.expire()
+		s.cancel = ctx.expire
+		status, err = s.in.ExecuteContext(ctx, c)
 	}
+	s.cancel = nil
 	res.Out, res.Status, res.Err = out.Bytes(), status, errClass(err)
 	if err != nil {
 		res.Text = err.Error()
@@ -259,6 +325,10 @@ func group(key string) string {
 		return "header"
 	case "fact", "forin", "boom", "loop", "sum":
 		return "frames"
+	case "gl", "gd", "gvr", "gv":
+		return "stdin"
+	case "sysrc", "pipe":
+		return "command"
 	}
 	return "other"
 }
@@ -281,7 +351,7 @@ func firstRandOfFresh() []byte {
 		must(err)
 		w := dirPool.Get().(*workDir)
 		defer dirPool.Put(w)
-		r := s.run("plain", "c0", w)
+		r := s.run("plain", "c0", 1, w)
 		off := 0
 		for off < len(r.Out) {
 			c, no, ok := parseKeyed(r.Out, off)
@@ -321,8 +391,11 @@ func diff(exp []Chunk, got []byte) *mismatch {
 			gotS := "<end of output>"
 			if ok {
 				gotS = c.K + "=" + string(c.V)
-				// an unexpected chunk (for example x=... where the run should have failed)
-				g = group(c.K)
+				// an unexpected chunk (for example x=... where the run should have failed); text of
+				// the standard input that is missing or was not to be read names the mechanism itself
+				if g != "stdin" {
+					g = group(c.K)
+				}
 			} else if off < len(got) {
 				gotS = string(got[off:])
 			}
@@ -370,9 +443,20 @@ func describe(c *Case) string {
 		case "both":
 			sb.WriteString("; ResetVars; ResetRand")
 		}
-		fmt.Fprintf(&sb, "; run mode=%s config=%s", r.Kind, r.Cfg)
+		fmt.Fprintf(&sb, "; run mode=%s config=%s (%s) stdin=%q", r.Kind, r.Cfg, apiOf(r.Kind, r.Cfg), stdinOf(r.Cfg, r.Tag))
 	}
 	return sb.String()
+}
+
+// usesCommand: the history starts a child process somewhere (the one part of a
+// history that depends on the machine: a fork can fail under load).
+func usesCommand(c *Case) bool {
+	for _, r := range c.Runs {
+		if r.Kind == "sys" || r.Kind == "pipe" {
+			return true
+		}
+	}
+	return false
 }
 
 // Replay is the hx.Replayer for Gen_Reuse exports.
@@ -381,6 +465,20 @@ func Replay(raw json.RawMessage) hx.Outcome {
 	if err := json.Unmarshal(raw, &c); err != nil || len(c.Runs) == 0 {
 		return hx.Outcome{Skipped: true, Note: "bad case"}
 	}
+	for _, r := range c.Runs {
+		if r.Tag < 1 {
+			return hx.Outcome{Skipped: true, Note: "bad case: run without tag"}
+		}
+	}
+	oc := replayOnce(&c)
+	// a history that starts commands is a failure only if it fails three times in a row
+	for try := 0; try < 2 && oc.Fail != nil && usesCommand(&c); try++ {
+		oc = replayOnce(&c)
+	}
+	return oc
+}
+
+func replayOnce(c *Case) hx.Outcome {
 	s, err := newSession()
 	if err != nil {
 		return hx.Outcome{Skipped: true, Note: "program rejected: " + err.Error()}
@@ -388,11 +486,11 @@ func Replay(raw json.RawMessage) hx.Outcome {
 	w := dirPool.Get().(*workDir)
 	defer dirPool.Put(w)
 	os.Remove(w.wf)
-	prog := describe(&c)
+	prog := describe(c)
 	last := len(c.Runs) - 1
 	for i, r := range c.Runs {
 		s.reset(r.Vr)
-		res := s.run(r.Kind, r.Cfg, w)
+		res := s.run(r.Kind, r.Cfg, r.Tag, w)
 		// a disagreement in the first run is not about reuse: the interpreter is new
 		pfx := "C14"
 		if i == 0 {
@@ -407,6 +505,12 @@ func Replay(raw json.RawMessage) hx.Outcome {
 				if m.group == "globals" || m.group == "specials" || m.group == "rand" {
 					dir = "wrong-value"
 				}
+				if res.Err != r.Err && (res.Err == "canceled" || res.Err == "deadline") {
+					// the output stops short because the run was ended by a context that is not its own
+					return hx.Fail(fmt.Sprintf("%s/context/%s-instead-of-%s/%s", pfx, res.Err, r.Err, apiOf(r.Kind, r.Cfg)),
+						fmt.Sprintf("run %d (mode %s, config %s) on the reused interpreter ends with a context's error (%s) although the context of its own call is not done", i+1, r.Kind, r.Cfg, res.Text),
+						r.Err, res.Err, prog)
+				}
 				return hx.Fail(fmt.Sprintf("%s/%s/%s/%s", pfx, m.group, dir, resetClass(r.Vr)),
 					fmt.Sprintf("run %d (mode %s, config %s) on the reused interpreter: output differs from the specification (%s)", i+1, r.Kind, r.Cfg, m.what),
 					m.exp, m.got, prog)
@@ -418,6 +522,11 @@ func Replay(raw json.RawMessage) hx.Outcome {
 			return hx.Outcome{Skipped: true, Note: "a run before the last deviates; judged in the case that ends with it"}
 		}
 		if res.Err != r.Err {
+			if res.Err == "canceled" || res.Err == "deadline" {
+				return hx.Fail(fmt.Sprintf("%s/context/%s-instead-of-%s/%s", pfx, res.Err, r.Err, apiOf(r.Kind, r.Cfg)),
+					fmt.Sprintf("run %d (mode %s, config %s) ends with a context's error (%s) although the context of its own call is not done", i+1, r.Kind, r.Cfg, res.Text),
+					r.Err, res.Err, prog)
+			}
 			return hx.Fail(fmt.Sprintf("%s/error/%s-instead-of-%s/%s", pfx, res.Err, r.Err, resetClass(r.Vr)),
 				fmt.Sprintf("run %d (mode %s, config %s): error class differs (%s)", i+1, r.Kind, r.Cfg, res.Text), r.Err, res.Err, prog)
 		}
@@ -429,7 +538,7 @@ func Replay(raw json.RawMessage) hx.Outcome {
 		if i == last && i > 0 && r.Vr == "both" {
 			fs, err := newSession()
 			must(err)
-			fr := fs.run(r.Kind, r.Cfg, w)
+			fr := fs.run(r.Kind, r.Cfg, r.Tag, w)
 			if fr.Panic == nil && (!bytes.Equal(fr.Out, res.Out) || fr.Status != res.Status || fr.Err != res.Err) {
 				return hx.Fail("C14/fresh-comparison/differs/"+r.Kind,
 					fmt.Sprintf("run %d (mode %s, config %s) after ResetVars+ResetRand differs from the same run on a new interpreter", i+1, r.Kind, r.Cfg),
